@@ -11,3 +11,6 @@ for d in /verif/seeded/*/; do
     git checkout -- .
     echo "$n: $id exit=$code [$cls]"
 done
+# rebuild from the restored tree: the binaries under sim/target must never be left holding a mutant
+# (VPSIM_NO_BUILD=1 runs would silently use them)
+cd /repo && git checkout -- . ; (cd /verif && ./check --setup >/dev/null 2>&1)
